@@ -94,35 +94,27 @@ def build_oracle():
 
 
 def theorem_status(prop):
-    """Compile Properties/<prop>.v, return (obligations, discharged, assumption report, problems)."""
-    reg = os.path.join(COQ, 'obligations.txt')
-    names = []
-    if os.path.exists(reg):
-        for line in open(reg):
-            parts = line.split()
-            if len(parts) >= 2 and parts[0] == prop:
-                names.append(parts[1])
+    """Compile Properties/<prop>.v; every Theorem in it is an obligation and must be followed by a
+    Print Assumptions that reports it closed. Returns (obligations, discharged, report, problems)."""
     vfile = os.path.join(COQ, 'theories', 'Properties', prop + '.v')
     problems = []
-    if not names:
-        return 0, 0, [], ['no theorem registered for ' + prop]
     if not os.path.exists(vfile):
-        return len(names), 0, [], ['missing ' + vfile]
-    p = run(['timeout', '600', 'coqc'] + QFLAGS + [vfile], cwd=COQ)
+        return 0, 0, [], ['no theorem registered for %s (missing %s)' % (prop, vfile)]
+    src = re.sub(r'\(\*.*?\*\)', '', open(vfile).read(), flags=re.S)
+    names = re.findall(r'\b(?:Theorem|Lemma|Corollary)\s+(\w+)', src)
+    if not names:
+        return 0, 0, [], ['no theorem stated in ' + vfile]
+    p = run(['timeout', '900', 'coqc'] + QFLAGS + [vfile], cwd=COQ)
     out = p.stdout + p.stderr
     if p.returncode != 0:
         return len(names), 0, [], ['coqc failed on %s: %s' % (vfile, out[-1500:])]
-    src = re.sub(r'\(\*.*?\*\)', '', open(vfile).read(), flags=re.S)
-    # Print Assumptions outputs, in order of appearance
     pa = re.findall(r'Print Assumptions\s+(\w+)\s*\.', src)
     blocks = re.split(r'(?=Closed under the global context|Axioms:)', out)
     blocks = [b for b in blocks if b.startswith('Closed under') or b.startswith('Axioms:')]
     report = []
     discharged = 0
+    allowed = {'functional_extensionality_dep', 'eq_rect_eq', 'JMeq_eq', 'classic', 'proof_irrelevance'}
     for n in names:
-        if not re.search(r'\b(Theorem|Lemma|Corollary)\s+%s\b' % re.escape(n), src):
-            problems.append('theorem %s not stated in %s' % (n, os.path.basename(vfile)))
-            continue
         if n not in pa:
             problems.append('no Print Assumptions for ' + n)
             continue
@@ -135,15 +127,12 @@ def theorem_status(prop):
             discharged += 1
             report.append('%s: Closed under the global context' % n)
         else:
-            # only axioms declared by the standard library are tolerated, and they are listed
             axs = re.findall(r'^\s*([\w.]+)\s*:', b, flags=re.M)
-            allowed = {'functional_extensionality_dep', 'FunctionalExtensionality.functional_extensionality_dep',
-                       'Eqdep.Eq_rect_eq.eq_rect_eq', 'JMeq_eq', 'classic', 'proof_irrelevance'}
-            if all(a.split('.')[-1] in {x.split('.')[-1] for x in allowed} for a in axs):
+            if axs and all(a.split('.')[-1] in allowed for a in axs):
                 discharged += 1
                 report.append('%s: stdlib axioms %s' % (n, ','.join(axs)))
             else:
-                problems.append('%s depends on %s' % (n, ','.join(axs)))
+                problems.append('%s depends on %s' % (n, ','.join(axs) or b[:200]))
     return len(names), discharged, report, problems
 
 
@@ -154,11 +143,11 @@ def build_harness():
     return p.returncode == 0, (p.stdout + p.stderr)[-4000:]
 
 
-def run_stream(stream, seed, n, outdir, extra=()):
+def run_stream(stream, seed, n, outdir, extra=(), name=None):
     os.makedirs(outdir, exist_ok=True)
     p = run([os.path.join(HARNESS, 'vh'), stream, '--seed', str(seed), '--n', str(n), '--out', outdir] + list(extra),
             cwd=HARNESS, env=GOENV, timeout=3000)
-    rep_path = os.path.join(outdir, 'report_%s.json' % stream)
+    rep_path = os.path.join(outdir, 'report_%s.json' % (name or stream))
     if p.returncode != 0 or not os.path.exists(rep_path):
         return None, (p.stdout + p.stderr)[-4000:]
     return json.load(open(rep_path)), (p.stdout + p.stderr)[-2000:]
